@@ -41,6 +41,14 @@ Fixpoint put_txs (h : N) (idx : N) (txs : list N) (m : amap (N * N)) : amap (N *
   | t :: r => put_txs h (N.succ idx) r (aput t (h, idx) m)
   end.
 
+(* lastHeight after a block of height h went into the cache: an older block delivered again does
+   not move it backwards (if lastHeight == MaxUint64 || Hght > lastHeight { lastHeight = Hght }) *)
+Definition hmax (last : option N) (h : N) : option N :=
+  match last with
+  | None => Some h
+  | Some l => if l <? h then Some h else Some l
+  end.
+
 (* insertBlockIntoCache *)
 Definition insert_cache (s : ist) (b : eblock) : ist :=
   let h := eh b in
@@ -54,7 +62,7 @@ Definition insert_cache (s : ist) (b : eblock) : ist :=
       | None => evict s lev
       end
     else s in
-  set_caches s1 (aput (eid b) h (i_id2h s1)) (aput h b (i_h2b s1)) (put_txs h 0 (etxs b) (i_tx s1)) (Some h).
+  set_caches s1 (aput (eid b) h (i_id2h s1)) (aput h b (i_h2b s1)) (put_txs h 0 (etxs b) (i_tx s1)) (hmax (i_last s) h).
 
 Definition set_db (s : ist) (d : amap eblock) : ist := mkI (i_W s) (i_id2h s) (i_h2b s) (i_tx s) (i_last s) d.
 
@@ -67,8 +75,17 @@ Definition store_block (s : ist) (b : eblock) (consecutive : bool) : ist :=
   let d3 := if negb consecutive && (W <? h) then afilter (fun k => negb (k <? h - W)) d2 else d2 in
   set_db s d3.
 
-(* Notify *)
+(* Notify.  A block below the last height that is already outside the retention window
+   (lastHeight - Hght >= blockWindow) is ignored; one inside the window goes through the normal path
+   (cache + store at its height), which leaves lastHeight alone. *)
+Definition stale (s : ist) (b : eblock) : bool :=
+  match i_last s with
+  | None => false
+  | Some l => (eh b <? l) && (i_W s <=? l - eh b)
+  end.
+
 Definition notify (s : ist) (b : eblock) : ist :=
+  if stale s b then s else
   let consecutive := match i_last s with None => true | Some l => eh b =? l + 1 end in
   store_block (insert_cache s b) b consecutive.
 
